@@ -122,6 +122,12 @@ func init() {
 				}
 				return reactorRaceFinish(num(in, "rounds", 2000))
 			}
+			if op == "racefeedback" {
+				if reactor.VerifRunning() {
+					reactor.Stop()
+				}
+				return reactorRaceFeedback(num(in, "rounds", 2000))
+			}
 			if op == "stress" {
 				if reactor.VerifRunning() {
 					reactor.Stop()
@@ -371,6 +377,75 @@ func reactorRaceFinish(rounds int) string {
 	}
 	if double != 0 {
 		return fmt.Sprintf("bad double-finish-accepted=%d", double)
+	}
+	return "ok"
+}
+
+// reactorRaceFeedback: a feedback and a finish of the same tracked seed at the same moment (the finisher of one pass and a
+// late duplicate hand-over; or two finisher decisions about one seed). Whatever the order, afterwards the seed is either
+// tracked with its token (feedback won: it comes out again, then we finish it) or gone with its token released - never
+// tracked without a token, never delivered after it was finished.
+func reactorRaceFeedback(rounds int) string {
+	out := make(chan *models.Item, 4)
+	if err := reactor.Start(2, out); err != nil {
+		return "start-failed " + err.Error()
+	}
+	defer reactor.Stop()
+	mk := func(id string) *models.Item {
+		u := &models.URL{Raw: "http://h.example/" + id}
+		_ = u.Parse()
+		return models.NewItem(id, u, "")
+	}
+	keeper := mk("keeper")
+	if err := reactor.ReceiveInsert(keeper); err != nil {
+		return "insert-failed"
+	}
+	<-out
+	for r := 0; r < rounds; r++ {
+		it := mk(fmt.Sprintf("f%d", r))
+		if err := reactor.ReceiveInsert(it); err != nil {
+			return "insert-failed"
+		}
+		<-out
+		var wg sync.WaitGroup
+		start := make(chan struct{})
+		var fbErr, finErr error
+		wg.Add(2)
+		go func() { defer wg.Done(); <-start; fbErr = reactor.ReceiveFeedback(it) }()
+		go func() { defer wg.Done(); <-start; finErr = reactor.MarkAsFinished(it) }()
+		close(start)
+		done := make(chan struct{})
+		go func() { wg.Wait(); close(done) }()
+		select {
+		case <-done:
+		case <-time.After(3 * time.Second):
+			return fmt.Sprintf("bad round=%d a call blocked", r)
+		}
+		// drain what the feedback may have put through
+		delivered := 0
+		for {
+			select {
+			case <-out:
+				delivered++
+				continue
+			case <-time.After(150 * time.Microsecond):
+			}
+			break
+		}
+		tracked := len(reactor.GetStateTable())
+		tokens := reactor.VerifTokens()
+		if tokens != tracked {
+			return fmt.Sprintf("bad round=%d feedback=%v finish=%v: tokens-in-use=%d tracked=%d delivered=%d", r, fbErr, finErr, tokens, tracked, delivered)
+		}
+		if finErr == nil && tracked != 1 {
+			return fmt.Sprintf("bad round=%d the seed was finished (no error) but %d seeds are tracked (keeper + ghost)", r, tracked)
+		}
+		if tracked == 2 {
+			// the feedback won and the finish found nothing (cannot happen: finish removes it) or ran first and failed: finish it now
+			if err := reactor.MarkAsFinished(it); err != nil {
+				return fmt.Sprintf("bad round=%d tracked seed cannot be finished: %v", r, err)
+			}
+		}
 	}
 	return "ok"
 }
